@@ -1492,10 +1492,13 @@ htp_status_t htp_tx_state_response_headers(htp_tx_t *tx) {
                     }
                 }
 
-                if ((tok_len + 1) >= input_len)
+                // Move past the token and the separator that ends it. The token may start after
+                // separators that get_token() skipped, so count from the token, not from the input.
+                size_t used = (size_t)(tok - input) + tok_len + 1;
+                if (used >= input_len)
                     break;
-                input += (tok_len + 1);
-                input_len -= (tok_len + 1);
+                input += used;
+                input_len -= used;
             }
         }
     } else if (tx->response_content_encoding_processing != HTP_COMPRESSION_NONE) {
